@@ -72,11 +72,8 @@ func (r *Room) Broadcast(message []byte, exclude *Connection) {
 		if exclude != nil && conn == exclude {
 			continue
 		}
-		select {
-		case conn.send <- message:
-		default:
-			// Connection send channel is full, skip it
-		}
+		// A full or closed send queue is skipped
+		conn.trySend(message)
 	}
 }
 
